@@ -1088,3 +1088,26 @@ fn is_filesystem_safe(column_name: &str) -> bool {
             .chars()
             .all(|c| (c.is_alphanumeric() && c.is_lowercase()) || c == '_')
 }
+
+#[cfg(locustdb_verif)]
+pub fn verif_subpartition(
+    opts: &Options,
+    columns: Vec<Arc<Column>>,
+) -> (Vec<SubpartitionMetadata>, Vec<Vec<Arc<Column>>>) {
+    subpartition(opts, columns)
+}
+
+#[cfg(locustdb_verif)]
+impl InnerLocustDB {
+    pub fn verif_wal_size(&self) -> u64 {
+        *self.wal_size.0.lock().unwrap()
+    }
+
+    pub fn verif_storage(&self) -> Option<&Arc<Storage>> {
+        self.storage.as_ref()
+    }
+
+    pub fn verif_tables(&self) -> Vec<Arc<Table>> {
+        self.tables.read().unwrap().values().cloned().collect()
+    }
+}
